@@ -700,3 +700,16 @@ package rosmar
 //@   ensures [C18:subdocWrite.success]            err == nil ==> iter("call:Collection.WriteCas") == 1 && callret("Collection.WriteCas", 1) == nil && casOut == callret("Collection.WriteCas", 0)
 //@   ensures [C03,C18:subdocWrite.only-conditional-writes] count("sql") == 0
 //@   ensures [C20:subdocWrite.unlocked] any: nolocks()
+
+// ---------------------------------------------------------------------------------------------------------------
+// collection+query.go
+
+// Bounded stand-in (not a proof): the row rendering of NextBytes is checked for result sets of 1, 2 and 3 columns with
+// every combination of NULL / non-NULL columns (the separator logic has no inductive invariant that can be stated
+// without naming the loop's local `first`).
+//@ fn (*queryIterator).NextBytes
+//@   flag bounded=result-sets-of-at-most-3-columns
+//@   variant cols3 iter=&{columnVals:slice3,columnNames:slice3,columnValPtrs:slice3,err:nil}
+//@   ensures [C19:NextBytes.renders-row] !isnull(result) ==> renders(result, iter.columnNames, iter.columnVals)
+//@   ensures [C19:NextBytes.one-row-per-call] !isnull(result) ==> count("rows.next") == 1 && count("rows.scan") == 1
+//@   ensures [C19:NextBytes.end] count("rows.end") == 1 ==> isnull(result)
